@@ -139,20 +139,33 @@ Definition ostep (cf : cfg) (o : ost) (ao : action * out) : ost :=
 
 Definition orun (k : Rel_case) : ost := fold_left (ostep (k_cfg k)) (k_trace k) o_init.
 
-(* The scenario ends with a healing round (5 ticks = 250 ms, then loss-free FIFO delivery until
+(* The scenario ends with enough healing rounds (each: 5 ticks = 250 ms, then loss-free FIFO delivery until
    nothing is queued) followed only by observations: returns those final observations. *)
 Definition harmless (a : action) : bool :=
   match a with
   | ATake | AQuery | ANow | AWfa | AWfaPoll | AWfh | AWfhPoll => true
   | _ => false
   end.
-Fixpoint healed_tail_rev (l : list (action * out)) (acc : list (action * out)) : option (list (action * out)) :=
+Fixpoint count_rounds (l : list (action * out)) : nat :=
   match l with
-  | (APump, _) :: (ATick, _) :: (ATick, _) :: (ATick, _) :: (ATick, _) :: (ATick, _) :: _ => Some acc
+  | (APump, _) :: (ATick, _) :: (ATick, _) :: (ATick, _) :: (ATick, _) :: (ATick, _) :: t => S (count_rounds t)
+  | _ => O
+  end.
+Fixpoint healed_tail_rev (l : list (action * out)) (acc : list (action * out))
+  : option (list (action * out) * nat) :=
+  match l with
+  | (APump, _) :: (ATick, _) :: (ATick, _) :: (ATick, _) :: (ATick, _) :: (ATick, _) :: _ => Some (acc, count_rounds l)
   | ao :: t => if harmless (fst ao) then healed_tail_rev t (ao :: acc) else None
   | [] => None
   end.
-Definition healed_tail (k : Rel_case) : option (list (action * out)) := healed_tail_rev (rev (k_trace k)) [].
+(* rounds granted: two, plus two per fragmented sample (ACKNACK -> fragment 1, NACK_FRAG -> the rest) *)
+Definition frag_writes (k : Rel_case) : nat :=
+  length (filter (fun ao => match ao with (AWrite _ len _, OCode 0) => fsz (k_cfg k) <? len | _ => false end) (k_trace k)).
+Definition healed_tail (k : Rel_case) : option (list (action * out)) :=
+  match healed_tail_rev (rev (k_trace k)) [] with
+  | Some (tail, n) => if (2 + 2 * frag_writes k <=? n)%nat then Some tail else None
+  | None => None
+  end.
 
 Definition no_pending (ao : action * out) (is_wfa : bool) : bool :=
   match ao with
